@@ -578,6 +578,12 @@ func (cl *cluster) enabled() []string {
 					out = append(out, fmt.Sprintf("Add:%d", i))
 				}
 			}
+		case "Reb":
+			for i, m := range attached {
+				if be := cl.attachedBE(i); m == "WO" && be != nil && !cl.synced[be.seq] && !cl.nodes[i].View().Rebuilding {
+					out = append(out, fmt.Sprintf("Reb:%d", i))
+				}
+			}
 		case "Sync":
 			for i, m := range attached {
 				if be := cl.attachedBE(i); m == "WO" && be != nil && !cl.synced[be.seq] && len(readers) > 0 {
